@@ -35,6 +35,9 @@ def run(pid, spec, tier, seed, merged, drv):
     if pid in ("C16", "C17"):
         return web(pid, spec, tier, seed, merged, drv, params)
     drv.mon_leg(merged, binary, pid, seed, tier, params)
+    if tier == "thorough" and not os.environ.get("VERIF_NO_SANITIZERS"):
+        for kind, sub, shards, cases, extra in SANITIZER_PLAN.get(pid, []):
+            sanitizer_leg(drv, merged, kind, sub, seed, shards, cases, extra)
     if pid == "C14":
         # CLI export / import / never-overwrite, for both CLI builds whose import code differs
         for tag, feats in (("default", None), ("variablelist-only", ["variablelist"])):
@@ -197,3 +200,87 @@ def web(pid, spec, tier, seed, merged, drv, params):
             merged.add(rep, "main")
     merged.legs.append("websim x %d servers" % shards)
     shutil.rmtree(tmp, ignore_errors=True)
+
+
+# ----------------------------------------------------------------------------- sanitizer legs (thorough tier)
+
+SANITIZER_MARKS = [
+    ("Undefined Behavior", "miri-undefined-behaviour"),
+    ("Data race detected", "miri-data-race"),
+    ("memory leaked", "miri-leak"),
+    ("ERROR: AddressSanitizer", "asan-report"),
+    ("ERROR: LeakSanitizer", "asan-leak"),
+    ("WARNING: ThreadSanitizer", "tsan-report"),
+]
+
+
+def sanitizer_leg(drv, merged, kind, sub, seed, shards, cases, extra=None, timeout=2400):
+    """run `mon <sub>` under miri / asan / tsan in `shards` processes; a sanitizer report is a violation"""
+    tmp = os.path.join(drv.CACHE, "run", "%s-%s-%d" % (kind, sub, os.getpid()))
+    os.makedirs(tmp, exist_ok=True)
+    leg = "%s[%s]" % (kind, sub)
+    cmds = []
+    if kind == "miri":
+        drv.build_mon_miri()
+    else:
+        binary = drv.build_mon_sanitizer(kind)
+    for sh in range(shards):
+        out = os.path.join(tmp, "shard%d.json" % sh)
+        env = drv.env_offline()
+        args = [sub, "--seed", str(seed), "--shard", str(sh), "--cases", str(cases), "--out", out]
+        for k, v in (extra or {}).items():
+            args += ["--" + k, str(v)]
+        if kind == "miri":
+            env["MIRIFLAGS"] = "-Zmiri-disable-isolation -Zmiri-seed=%d" % (seed * 100 + sh)
+            cmd = ["cargo", "+nightly", "miri", "run", "-q", "-p", "mon", "--target-dir",
+                   os.path.join(drv.CACHE, "target-miri"), "--"] + args
+        else:
+            if kind == "asan":
+                env["ASAN_OPTIONS"] = "halt_on_error=1:abort_on_error=0:detect_leaks=1:exitcode=98"
+            else:
+                env["TSAN_OPTIONS"] = "halt_on_error=1:exitcode=66"
+            cmd = [binary] + args
+        cmds.append((cmd, out, env))
+    # cargo needs the harness directory as cwd for `miri run`
+    cwd = os.getcwd()
+    os.chdir(drv.HARNESS)
+    try:
+        res = drv.run_shards(cmds, timeout, leg)
+    finally:
+        os.chdir(cwd)
+    for sh, (rep, rc, note) in enumerate(res):
+        if rep is not None:
+            merged.add(rep, leg)
+            continue
+        hit = None
+        for mark, sig in SANITIZER_MARKS:
+            if mark in note:
+                hit = sig
+                break
+        if hit:
+            merged.violations.append({"signature": hit, "leg": leg,
+                                      "message": "%s shard %d: %s" % (leg, sh, note[-1200:]),
+                                      "replay": {"property": sub, "sanitizer": kind, "seed": seed, "shard": sh, "cases": cases,
+                                                 "extra": extra or {}}})
+        else:
+            merged.inconclusive.append("%s shard %d: %s" % (leg, sh, note[-400:]))
+    merged.counters["%s.processes" % leg] = shards
+    merged.legs.append(leg)
+    shutil.rmtree(tmp, ignore_errors=True)
+
+
+# which sanitizer legs a property's thorough tier adds: (kind, sub-command, shards, cases, extra args)
+SANITIZER_PLAN = {
+    "C01": [("miri", "c01", 4, 2, {"nmax": 3, "large": 0})],
+    "C02": [("miri", "c02", 4, 2, {"nmax": 3})],
+    "C03": [("miri", "c03", 4, 1, {"nmax": 3})],
+    "C04": [("miri", "c04", 4, 1, {"nmax": 3})],
+    "C05": [("miri", "c05", 8, 1, {"nmax": 2, "rand_seeds": 1}), ("tsan", "c05", 8, 300, {"nmax": 5}),
+            ("asan", "c05", 4, 200, {"nmax": 5})],
+    "C06": [("miri", "c06", 6, 2, {}), ("asan", "c06", 8, 400, {})],
+    "C07": [("miri", "c07", 4, 1, {}), ("asan", "c07", 8, 400, {})],
+    "C18": [("miri", "c18", 8, 10, {}), ("asan", "c18", 8, 5000, {})],
+    "C19": [("miri", "c19", 8, 1, {"threaded": 2}), ("tsan", "c19", 8, 30, {"threaded": 300}),
+            ("asan", "c19", 4, 30, {"threaded": 100})],
+    "C20": [("miri", "c20", 2, 2, {"exhaustive_len": 3})],
+}
